@@ -107,6 +107,36 @@ for large in (False, True):
                   'nothing' % ('Large' if large else 'Small'), outside='TCP itself')
 
 
+def do_forward_open_rejected(large, o_t_id, serial, vendor, oserial, rpi):
+    """a Forward Open the Connection Manager refuses (a second one for an O->T connection id the peer already holds, O->T multicast so the
+    originator's id is kept) is answered by ONE Forward Open REPLY (service|0x80) with a CIP error status -- never an echo of the request"""
+    sess = register()
+    ncp_ = ref.ncp(4002 if large else 500, True, 0, 1, False, large)
+    fo = ref.forward_open(large, 5, 157, o_t_id, 0x22, serial, vendor, oserial, 1, rpi, ncp_, rpi, ncp_, 0xa3, FO_PATH)
+    proceed, rpy = talk(rr(sess, fo, routed=False))
+    r = ref.un_reply(un_rr(rpy, sess))
+    svc = 0xdb if large else 0xd4
+    ok = proceed and r['service'] == svc and r['status'] == 0 and ref.un_le(r['data'][0:4]) == o_t_id
+    fo2 = ref.forward_open(large, 5, 157, o_t_id, 0x23, serial, vendor, oserial, 1, rpi + 1, ncp_, rpi + 1, ncp_, 0xa3, FO_PATH)
+    proceed, rpy = talk(rr(sess, fo2, routed=False))
+    r = ref.un_reply(un_rr(rpy, sess))
+    ok = ok and proceed and r['service'] == svc and r['status'] != 0
+    d = r['data']                                        # unsuccessful Forward Open reply: connection serial, vendor, originator serial, ...
+    ok = ok and ref.un_le(d[0:2]) == serial and ref.un_le(d[2:4]) == vendor and ref.un_le(d[4:8]) == oserial
+    return ok and list(device.Connection_Manager.forwards) == [(ADDR[0], ADDR[1], o_t_id)]     # the established connection is untouched
+
+
+for large in (False, True):
+    define(globals(), 'C14', 'forward_open_rejected_%s' % ('large' if large else 'small'), ['o_t_id', 'serial', 'vendor', 'oserial', 'rpi'],
+           "return do_forward_open_rejected(%r, o_t_id, serial, vendor, oserial, rpi)" % large,
+           ['0 <= o_t_id <= 0xFFFFFFFF and 0 <= serial <= 0xFFFF and 0 <= vendor <= 0xFFFF and 0 <= oserial <= 0xFFFFFFFF and 0 <= rpi < 0xFFFFFFFF'],
+           tier='thorough' if large else 'quick', timeout=3000, path_timeout=600, drives=DRIVES, stubs=STUBS,
+           symbolic=['O->T connection id (kept: O->T multicast), connection serial, vendor, originator serial, RPI'],
+           bounds='reference-encoded Register + %s Forward Open (O->T multicast) + a second, conflicting Forward Open for the same O->T id from the same peer: the '
+                  'second is answered by one Forward Open reply (service|0x80) with a non-zero CIP status carrying the connection triad; the first connection stays'
+                  % ('Large' if large else 'Small'), outside='other refusal causes')
+
+
 ESTABLISHED = {}
 
 
